@@ -1,0 +1,51 @@
+//go:build verif
+
+package bigbuff
+
+import "sync/atomic"
+
+// Exported names of the instrumentation points, for verification harnesses only.
+const (
+	VerifWaitCondBeforePark   = verifWaitCondBeforePark
+	VerifWaitCondWatcherWoken = verifWaitCondWatcherWoken
+	VerifCleanupAfterPass     = verifCleanupAfterPass
+	VerifCleanupTimerFired    = verifCleanupTimerFired
+	VerifGetAsyncStart        = verifGetAsyncStart
+	VerifExclRunnerStart      = verifExclRunnerStart
+	VerifExclAfterWork        = verifExclAfterWork
+	VerifWorkerAfterWgWait    = verifWorkerAfterWgWait
+	VerifWorkersLoopTop       = verifWorkersLoopTop
+	VerifCasterArmed          = verifCasterArmed
+	VerifCasterNegAdded       = verifCasterNegAdded
+	VerifPubSubSendLocked     = verifPubSubSendLocked
+	VerifPubSubNegDecided     = verifPubSubNegDecided
+	VerifPubSubPongPhase      = verifPubSubPongPhase
+	VerifAttemptAfterTick     = verifAttemptAfterTick
+	VerifChainPrimaryFired    = verifChainPrimaryFired
+)
+
+var verifHook atomic.Pointer[func(point int)]
+
+// VerifSetHook installs (or, with nil, removes) the function called at every instrumentation point.
+// The library only announces that it got there; what happens (nothing, a yield, a delay, a gate) is the
+// harness's decision.
+func VerifSetHook(f func(point int)) {
+	if f == nil {
+		verifHook.Store(nil)
+		return
+	}
+	verifHook.Store(&f)
+}
+
+func verifPoint(point int) {
+	if f := verifHook.Load(); f != nil {
+		(*f)(point)
+	}
+}
+
+// VerifExclusiveKeys reports how many per-key entries the Exclusive currently holds.
+func VerifExclusiveKeys(e *Exclusive) int {
+	e.mutex.Lock()
+	defer e.mutex.Unlock()
+	return len(e.work)
+}
